@@ -3,6 +3,7 @@
 package zzverif
 
 import (
+	"time"
 	"context"
 	"crypto/ecdsa"
 	"fmt"
@@ -75,6 +76,21 @@ func MalformedSig(name string) []byte {
 	}
 	return b
 }
+
+// Now is the harness clock: the k-th reading comes from the assignment (now.sec/now.nsec), the real clock otherwise.
+// Source files named with -clockfiles read the clock through it (time.Now() / time.Since( rewritten mechanically).
+func Now() time.Time {
+	load()
+	if vs, ok := assignment["now.sec"]; ok {
+		if cursor["now.sec"] >= len(vs) { // more readings than the counterexample recorded: the clock stands still
+			return time.Unix(int64(vs[len(vs)-1]), int64(assignment["now.nsec"][len(vs)-1]))
+		}
+		return time.Unix(int64(next("now.sec")), int64(next("now.nsec")))
+	}
+	return time.Now()
+}
+
+func Since(t time.Time) time.Duration { return Now().Sub(t) }
 
 func Len(name string, opts ...int) int {
 	load()
